@@ -16,7 +16,9 @@ Nothing else is demanded (which packets come out is C01/C02).
 from __future__ import annotations
 
 import bisect
+import contextlib
 import dataclasses
+import math
 import pickle
 import tracemalloc
 from typing import IO, Any, Callable
@@ -27,9 +29,15 @@ from easynetwork.serializers.base_stream import AutoSeparatedPacketSerializer, F
 from easynetwork.serializers.json import JSONSerializer
 from easynetwork.serializers.line import StringLineSerializer
 
+from easynetwork.lowlevel.api_sync.endpoints.stream import StreamEndpoint
+from easynetwork.lowlevel.api_sync.transports.socket import SocketStreamTransport
+
 from models.frames import LIMIT_ERROR
-from vsim.chunk import CopyDriver, FillDriver, cuts_to_chunks, gen_cuts
+from props.c01 import AsyncEndpointDriver, SyncEndpointDriver
+from vsim.chunk import CopyDriver, FillDriver, _classify, cuts_to_chunks, gen_cuts
+from vsim.harness import Peer, sync_engine
 from vsim.runner import Harness
+from vsim.sock import Delivery, SimNet
 from vsim.world import HarnessError, Violation, World
 
 PROPERTY = "C07"
@@ -42,7 +50,7 @@ RULE = (
     "subclass with a restricted Unpickler); limits 8..96 (dense), 100..512, 1000..4096; read policies {whole stream, byte-by-byte, "
     "fixed size incl. limit-1/limit/limit+1/2*limit+3, one frame per read, k frames per read, random sizes, structural cuts at frame ends}; "
     "copy path and buffer-filling path (size hints 1..16384, short fills); a run is non-trivial when the stream was fragmented and "
-    ">=1 frame was delivered"
+    ">=1 frame was delivered; tier T2 (~19 % of the runs): the same reads through SimNet into the real endpoint receive loops -- blocking StreamEndpoint observed after every read (same oracle), and C01's deferred sync/async endpoint drivers (order-based under-limit clause, bound evaluated at the end of the run with one read = max_recv_size resp. the consumer's buffer)"
 )
 COMPONENTS_REAL = [
     "easynetwork.serializers.tools.GeneratorStreamReader.read_until",
@@ -50,8 +58,9 @@ COMPONENTS_REAL = [
     "easynetwork.serializers.json (_JSONParser.raw_parse), easynetwork.serializers.line",
     "easynetwork.protocol",
     "easynetwork.lowlevel._stream consumers",
+    "T2: easynetwork.lowlevel.api_sync.endpoints.stream.StreamEndpoint + SocketStreamTransport, api_async.endpoints.stream.AsyncStreamEndpoint + asyncio stream adapter",
 ]
-COMPONENTS_STUB = ["the network: replaced by the list of reads of the byte stream (T1)"]
+COMPONENTS_STUB = ["the network: replaced by the list of reads of the byte stream (T1)", "T2: SimSocket / SimSelector / SimEventLoop, scripted peer, virtual clock"]
 ASSUMPTIONS = [
     "held memory is observed behaviourally (limit error raised or not, buffer_size), not by inspecting suspended generators",
     "the file-based family is a pickle (protocol 2) backed FileBasedPacketSerializer subclass; cbor2/msgpack are not installed",
@@ -118,6 +127,100 @@ PATHS: dict[str, tuple[Callable[[Any], Any], Callable[[Any, World], Any]]] = {
     "copy": (StreamProtocol, _drv_copy),
     "fill": (BufferedStreamProtocol, _drv_fill),
 }
+
+
+# --------------------------------------------------------------------------------------------------- tier T2
+class SyncEndpointFeed:
+    """The same reads through a SimNet link into the real blocking receive loop, observed after every read:
+    StreamEndpoint(SocketStreamTransport(SimSocket)) under the sync engine; feed(chunk) makes exactly that chunk visible
+    on the socket (Delivery(frag=5), pipe.deliver(n)) and then calls recv_packet(timeout=0) until TimeoutError.
+    Same surface as vsim.chunk drivers (feed / out / fed / on_outcome / max_buffer_size) plus close().
+    `fed` at the time of an outcome = bytes the endpoint has taken off the socket so far."""
+
+    def __init__(self, protocol: Any, world: World):
+        self.world = world
+        self.out: list[tuple] = []
+        self.fed = 0
+        self.on_outcome: Callable[[tuple, Any], None] | None = None
+        self.max_buffer_size = 0
+        self.mrs = world.pick("max_recv_size", HINTS)
+        retry = world.pick("retry_interval", [math.inf, 1.0, 1 / 64])
+        world.notes.update(max_recv_size=self.mrs, retry_interval=str(retry))
+        self._stack = contextlib.ExitStack()
+        net = SimNet(world)
+        self.lib, self.ps = net.socketpair(delivery_ba=Delivery(frag=5))
+        self.peer = Peer(world, self.ps)
+        make_selector = self._stack.enter_context(sync_engine(world))
+        self.endpoint = StreamEndpoint(SocketStreamTransport(self.lib, retry, selector_factory=make_selector), protocol, self.mrs)
+        self._stack.callback(self.endpoint.close)
+        self.written = 0
+
+    def _emit(self, o: tuple) -> None:
+        self.fed = self.lib.rx_pipe.total_read
+        self.out.append(o)
+        self.world.log(o[0], o[1] if o[0] != "pkt" else "")
+        if self.on_outcome is not None:
+            self.on_outcome(o, self)
+
+    def feed(self, chunk: bytes) -> None:
+        self.peer.write(chunk)
+        self.ps.tx_pipe.deliver(len(chunk))
+        self.written += len(chunk)
+        cap = len(self.out) + len(chunk) + self.written + 8
+        while len(self.out) <= cap:
+            before = (len(self.lib.rx_pipe.rx), len(self.out))
+            try:
+                pkt = self.endpoint.recv_packet(timeout=0)
+            except TimeoutError:
+                # a zero timeout is one poll; nothing says one call drains the socket: poll again while that makes progress
+                if not self.lib.rx_pipe.rx or (len(self.lib.rx_pipe.rx), len(self.out)) == before:
+                    break
+            except (Violation, HarnessError):
+                raise
+            except BaseException as exc:  # noqa: BLE001
+                o = _classify(exc)
+                self._emit(o)
+                if o[0] == "crash":
+                    return
+            else:
+                self._emit(("pkt", pkt))
+        else:
+            self._emit(("crash", "Spin", None, "recv_packet(timeout=0) keeps producing outcomes"))
+            return
+        self.fed = self.lib.rx_pipe.total_read
+        try:
+            consumer = self.endpoint._StreamEndpoint__receiver.consumer
+        except AttributeError as exc:  # private layout changed: update the harness, do not weaken silently
+            raise HarnessError(f"cannot reach the endpoint's consumer: {exc}") from None
+        self.max_buffer_size = max(self.max_buffer_size, getattr(consumer, "buffer_size", 0))
+
+    def close(self) -> None:
+        self._stack.close()
+
+
+class _C07SyncEndpointDriver(SyncEndpointDriver):  # C01's deferred drivers, reused by import (poll and blocking modes)
+    stop_on_parse_error = False
+
+
+class _C07AsyncEndpointDriver(AsyncEndpointDriver):  # AsyncStreamEndpoint on SimEventLoop (gaps, head start, slow receiver)
+    stop_on_parse_error = False
+
+
+# observed after every read (same oracle as T1)
+T2_LIVE_PATHS: dict[str, tuple[Callable[[Any], Any], Callable[[Any, World], Any]]] = {
+    "t2sync-copy": (StreamProtocol, SyncEndpointFeed),
+    "t2sync-fill": (BufferedStreamProtocol, SyncEndpointFeed),
+}
+# deferred: the whole scenario runs in finish(); order-based oracle + the bound evaluated at the end of the run
+T2_DEFERRED_PATHS: dict[str, tuple[Callable[[Any], Any], Callable[[Any, World], Any]]] = {
+    "t2blk-copy": (StreamProtocol, lambda protocol, world: _C07SyncEndpointDriver(protocol, world, False)),
+    "t2blk-fill": (BufferedStreamProtocol, lambda protocol, world: _C07SyncEndpointDriver(protocol, world, False)),
+    "t2aio-copy": (StreamProtocol, lambda protocol, world: _C07AsyncEndpointDriver(protocol, world, False)),
+    "t2aio-fill": (BufferedStreamProtocol, lambda protocol, world: _C07AsyncEndpointDriver(protocol, world, False)),
+}
+PATHS.update(T2_LIVE_PATHS)
+PATHS.update(T2_DEFERRED_PATHS)
+T2_MAX_READS = 96
 
 
 # =================================================================================================== workload
@@ -441,11 +544,89 @@ def _run_case(world: World, family: str, path: str) -> None:
     starts = [0] + ends
     nframes = len(case.frames)
     chunks = _gen_reads(world, case, stream, ends)
+    if path in T2_LIVE_PATHS or path in T2_DEFERRED_PATHS:
+        while len(chunks) > T2_MAX_READS:  # one read = one socket delivery + >= 1 recv_packet(): keep a run at a few ms
+            chunks = [b"".join(chunks[i : i + 2]) for i in range(0, len(chunks), 2)]
     # D8 (file-based: several small frames in one read larger than the limit were rejected) is fixed in /repo (ff67c53):
     # multi-frame reads above the limit are generated in every run, for every family; a regression is reported under
     # the same key C07/filebased/<path>/under-limit-rejected/multi-frame-read.
     wrap, make_driver = PATHS[path]
     drv = make_driver(wrap(case.make()), world)
+    try:
+        if path in T2_DEFERRED_PATHS:
+            _check_deferred(world, case, family, path, drv, chunks, ends)
+        else:
+            _check_live(world, case, family, path, drv, chunks, ends)
+    finally:
+        close = getattr(drv, "close", None)
+        if close is not None:
+            close()
+
+
+def _check_deferred(world: World, case: Case, family: str, path: str, drv: Any, chunks: list[bytes], ends: list[int]) -> None:
+    """T2 through C01's deferred drivers: everything happens in finish().  What is observable is the *order* of outcomes,
+    so: (under-limit-rejected) no limit error before all complete frames came out; (bound) at the end of the run, when
+    every byte has been read, a tail of more than limit + separator + one read must have produced a limit error, where
+    one read <= max_recv_size on the copy path and <= the consumer's buffer (<= limit) on the buffer-filling path."""
+    limit, seplen = case.limit, case.seplen
+    nframes = len(case.frames)
+    starts = [0] + ends
+    total = sum(len(c) for c in chunks)
+    sizes = [len(c) for c in chunks]
+    for c in chunks:
+        drv.feed(c)
+    drv.finish()
+    out = drv.out
+    t2 = {k: world.notes[k] for k in ("max_recv_size", "t2_mode", "retry_interval", "gap", "head_start", "slow_receiver") if k in world.notes}
+    world.notes.update(serializer=case.desc, frame_sizes=[len(f) for f in case.frames], tail=len(case.tail), reads=sizes[:40], path=path)
+    site = f"{family}/{path}"
+    ctx = (
+        f"{case.desc} path={path} {t2}\n frame sizes={[len(f) for f in case.frames]} (all <= limit-separator-2={limit - seplen - 2}) "
+        f"unterminated tail={len(case.tail)} bytes\n deliveries={sizes}\n frames={case.frames}\n tail={case.tail[:80]!r}\n"
+        f" outcomes={[(o[0], o[1] if o[0] != 'pkt' else '…') for o in out]}"
+    )
+    delivered = 0
+    tail_errors = 0
+    for o in out:
+        if o[0] == "crash":
+            raise Violation("no-crash", f"{o} escaped; {ctx}", key=f"C07/{site}/crash/{o[1]}")
+        if o == ("err", LIMIT_ERROR):
+            world.probe("limit-error-raised")
+            if delivered < nframes:
+                where = "multi-frame-read" if total - starts[delivered] > limit else "buffered-within-limit"
+                raise Violation(
+                    "under-limit-rejected",
+                    f"frame #{delivered} ({len(case.frames[delivered])} bytes, safely under limit {limit}) was answered with LimitOverrunError; {ctx}",
+                    key=f"C07/{site}/under-limit-rejected/{where}",
+                )
+            tail_errors += 1
+            if case.stop_at_tail_error:
+                break  # what follows has no frame structure
+        else:
+            delivered += 1
+    mrs = world.notes.get("max_recv_size")
+    if not isinstance(mrs, int):
+        raise HarnessError("the T2 driver did not report max_recv_size")
+    one_read = mrs if path.endswith("-copy") else limit
+    slack = one_read if case.count_from_delivery else 0  # raw JSON: whitespace read together with the last document
+    if len(case.tail) > limit + seplen + one_read + slack:
+        world.probe("t2-tail-beyond-bound")
+        if tail_errors == 0 and delivered >= nframes:
+            raise Violation(
+                "bound",
+                f"{len(case.tail)} unterminated bytes were read (> limit {limit} + separator {seplen} + one read {one_read}) and no LimitOverrunError was raised; {ctx}",
+                key=f"C07/{site}/unbounded",
+            )
+    world.log("run", path, family, nframes, len(case.tail), len(chunks), tuple(o[0] for o in out))
+    world.progress(sum(1 for o in out if o[0] == "pkt"))
+    if len(chunks) > 1:
+        world.fault("frag")
+
+
+def _check_live(world: World, case: Case, family: str, path: str, drv: Any, chunks: list[bytes], ends: list[int]) -> None:
+    limit, seplen = case.limit, case.seplen
+    starts = [0] + ends
+    nframes = len(case.frames)
     events: list[tuple[tuple, int]] = []
     drv.on_outcome = lambda o, d: events.append((o, d.fed))
 
@@ -455,7 +636,8 @@ def _run_case(world: World, family: str, path: str) -> None:
 
     def ctx() -> str:
         return (
-            f"{case.desc} path={path}\n frame sizes={[len(f) for f in case.frames]} (all <= limit-separator-2={limit - seplen - 2}) "
+            f"{case.desc} path={path} { {k: world.notes[k] for k in ('max_recv_size', 'retry_interval') if k in world.notes} or ''}\n"
+            f" frame sizes={[len(f) for f in case.frames]} (all <= limit-separator-2={limit - seplen - 2}) "
             f"unterminated tail={len(case.tail)} bytes\n reads={sizes}\n frames={case.frames}\n tail={case.tail[:80]!r}\n"
             f" outcomes so far={[(o[0], o[1] if o[0] != 'pkt' else '…', at) for o, at in events]}"
         )
@@ -492,7 +674,7 @@ def _run_case(world: World, family: str, path: str) -> None:
                 delivered += 1
                 if case.count_from_delivery:
                     last_delivery_at = at
-        if path == "fill" and drv.max_buffer_size > limit:
+        if path.endswith("fill") and drv.max_buffer_size > limit:
             raise Violation("buffer-size", f"buffer_size={drv.max_buffer_size} > limit={limit}; {ctx()}", key=f"C07/{site}/buffer-size")
         k = bisect.bisect_right(ends, fed)
         boundary = ends[k - 1] if k else 0
@@ -519,11 +701,14 @@ def _harness(family: str, path: str, weight: int = 1) -> Harness:
     return Harness(f"{family}-{path}", lambda w: run_case(w, family, path), weight=weight)
 
 
-HARNESSES = [
-    _harness("sep", "copy", 2),
-    _harness("sep", "fill", 2),
-    _harness("jsonl", "copy"),
-    _harness("jsonraw", "copy", 2),
-    _harness("filebased", "copy", 2),
-    _harness("filebased", "fill", 2),
-]
+# T1 runs cost ~1 ms, T2 runs a few ms: T1 weights x7, every T2 harness weight 1 (18 of 95 = 19 % of the runs)
+_T1 = [("sep", 2, True), ("jsonl", 1, False), ("jsonraw", 2, False), ("filebased", 2, True)]
+HARNESSES = []
+for _family, _w, _buffered in _T1:
+    HARNESSES.append(_harness(_family, "copy", 7 * _w))
+    if _buffered:
+        HARNESSES.append(_harness(_family, "fill", 7 * _w))
+for _family, _w, _buffered in _T1:
+    for _path in list(T2_LIVE_PATHS) + list(T2_DEFERRED_PATHS):
+        if _buffered or _path.endswith("-copy"):
+            HARNESSES.append(_harness(_family, _path, 1))
